@@ -304,10 +304,10 @@ class DurationTypeIO(GraphSONTypeIO):
     cql_type = 'duration'
 
     _duration_regex = re.compile(r"""
-        ^P((?P<days>\d+)D)?
-        T((?P<hours>\d+)H)?
-        ((?P<minutes>\d+)M)?
-        ((?P<seconds>[0-9.]+)S)?$
+        ^P((?P<days>-?\d+)D)?
+        T((?P<hours>-?\d+)H)?
+        ((?P<minutes>-?\d+)M)?
+        ((?P<seconds>-?[0-9.]+)S)?$
     """, re.VERBOSE)
     _duration_format = "P{days}DT{hours}H{minutes}M{seconds}S"
 
@@ -317,14 +317,16 @@ class DurationTypeIO(GraphSONTypeIO):
 
     @classmethod
     def serialize(cls, value, writer=None):
-        total_seconds = int(value.total_seconds())
-        days, total_seconds = divmod(total_seconds, cls._seconds_in_day)
-        hours, total_seconds = divmod(total_seconds, cls._seconds_in_hour)
-        minutes, total_seconds = divmod(total_seconds, cls._seconds_in_minute)
-        total_seconds += value.microseconds / 1e6
+        # use the timedelta's own normalized (days, seconds, microseconds) fields: exact for
+        # any magnitude, and a negative duration keeps its sign in the days component
+        hours, seconds = divmod(value.seconds, cls._seconds_in_hour)
+        minutes, seconds = divmod(seconds, cls._seconds_in_minute)
+        seconds = ("%d.%06d" % (seconds, value.microseconds)).rstrip('0')
+        if seconds.endswith('.'):
+            seconds += '0'
 
         return cls._duration_format.format(
-            days=int(days), hours=int(hours), minutes=int(minutes), seconds=total_seconds
+            days=value.days, hours=hours, minutes=minutes, seconds=seconds
         )
 
     @classmethod
